@@ -47,6 +47,14 @@ static int check_layout(int p, unsigned long c, long start, long end, int rc) {
 void harness(void) {
   unsigned long n = IN(0), start = IN(1), c1 = IN(2), c2 = IN(3), mv = IN(4);
   ASSUME(n <= GBUF && start <= n);
+#ifdef CFIX
+  /* one query per chunk size: a symbolic divisor makes the 64-bit remainder in
+   * assemble_with_chunk_fitting the dominant cost */
+  ASSUME(c1 == CFIX);
+  c1 = CFIX;
+  ASSUME(c2 == CFIX || c2 == 0 || c2 == 1);
+  if (c2 >= 2) c2 = CFIX;
+#endif
   ASSUME(c1 >= CMIN && c1 <= CMAX && c2 <= CMAX);
   ASSUME(mv < 3);
   glue_fill(g_buf, g_shadow, GBUF);
